@@ -40,7 +40,7 @@ def main():
     vlib.deviation_caught("Lsp.tla", "DEV_Lsp_CrashOnResponse.cfg", "Survives", cov)
     cov["actions_taken"] = {k: v for k, v in live["coverage"].items() if k[0].isupper()}
     # texts 1, 2 of the C12 alphabet: a valid document and one with a lexical error (null token result)
-    texts = {1: doctexts.T_VALID, 2: doctexts.T_LEX}
+    texts = {1: doctexts.T_VALID, 2: doctexts.T_LEX, 3: doctexts.T_DUP}
     r = vlib.tlc_check("Lsp.tla", "MC_Lsp_C12_3.cfg", workers=vlib.NCPU, timeout=3600)
     cov["states"] += r["states"]
     cov["transitions"] += r["transitions"]
